@@ -64,8 +64,47 @@ def api_part(pid, tier, out):
               % (len(drift), json.dumps(drift[0])))
 
 
+def apalache_part(pid, tier, out):
+    """unbounded operation histories: the pool partition and the reservation
+    counter are an inductive invariant of spec/apalache/ClusterPools.tla
+    (Apalache: Init => IndInv, IndInv /\\ Next => IndInv')"""
+    import shutil
+    import subprocess
+    if shutil.which("apalache-mc") is None:
+        out["samples"].append({"apalache": "not installed - skipped"})
+        return
+    sd = core.scratch()
+    try:
+        res = []
+        for init, length in (("Init", 0), ("IndInit", 1)):
+            r = subprocess.run(["apalache-mc", "check", "--cinit=CInit", "--init=" + init, "--inv=IndInv",
+                                "--length=%d" % length, "--out-dir=" + os.path.join(sd, "out"), "ClusterPools.tla"],
+                               cwd=os.path.join(core.SPEC, "apalache"), stdout=subprocess.PIPE,
+                               stderr=subprocess.STDOUT, text=True, timeout=1800)
+            ok = "EXITCODE: OK" in r.stdout
+            err = "Checker has found an error" in r.stdout
+            if not ok and not err:
+                raise MachineryError("apalache-mc failed:\n" + r.stdout[-2000:])
+            res.append({"init": init, "length": length, "holds": ok})
+            if err:
+                path = core.write_replay(pid, "apalache", {"kind": "mc", "family": "ClusterPools", "violated": "IndInv",
+                                                            "tlc": r.stdout[-6000:]})
+                out["violations"].append(("design-level: IndInv of ClusterPools is not inductive (%s)" % init, path))
+    finally:
+        shutil.rmtree(sd, ignore_errors=True)
+        for junk in ("detailed.log", "log0.smt", "profile-rules.txt"):
+            try:
+                os.remove(os.path.join(core.SPEC, "apalache", junk))
+            except OSError:
+                pass
+    out["samples"].append({"apalache": "ClusterPools.tla IndInv inductive for unbounded operation histories (4 machines, 3 observations)",
+                           "obligations": res})
+    out.setdefault("extra_cov", {})["apalache_inductive_invariant"] = all(x["holds"] for x in res)
+
+
 for _p in API_INVS:
     EXTRA.setdefault(_p, []).append(api_part)
+EXTRA.setdefault("C02", []).append(apalache_part)
 
 
 ASSUME_PAIR = [
